@@ -5,7 +5,7 @@ from rules.facts import norm, path_matches, origins, flows_to, call_matches, las
 
 CONFIGS = {'quick': ['default', 'controls'], 'thorough': ['allfeat']}
 TECHNIQUE = ('static analysis: dominance / must-pass-through rules on Core::process and the two executor loops, provenance of '
-             'forwarded outputs, and a linear-resource rule over drop-elaborated MIR with a frozen exception table')
+             'forwarded outputs, a typestate rule on the request futures (send exactly once at first poll), and a linear-resource rule over drop-elaborated MIR with a frozen exception table')
 EXPLANATION = (
     'R01.a Core::process runs the executor before looking at events, re-runs it after every update/spawn, returns only when the '
     'event channel is empty and returns exactly the collected drain of the effect channel; R01.b every entry point (process_event, '
@@ -13,7 +13,11 @@ EXPLANATION = (
     'drop-elaborated MIR of crux_core no effect, event, request, command or response value is dropped on a normal path except in '
     'the tabled situations (receiver gone, rejected resolution, serialised batch); R01.d every match on CommandOutput forwards the '
     'Effect payload to the effect channel and the Event payload to the event channel; R01.e both executor loops read both queues '
-    'and can only exit after a pass that found nothing. Does not decide that the fixpoint is reached for every program.')
+    'and can only exit after a pass that found nothing; R01.f the effect of a command-API request, stream or notification is put on the '
+    'effect channel exactly once — at the call for a notification, at the first poll (typestate ReadyToSend -> Sent) for the others — and the '
+    'future keeps the receiver it was created with; R01.g every future crux provides keeps the current poll\'s waker when it stays Pending '
+    '(a task that loses it is evicted and what it would still have requested is lost); R01.h a command reports done / ends its stream only when '
+    'its effect and event queues are empty. Does not decide that the fixpoint is reached for every program.')
 
 
 # ---------------------------------------------------------------------------------------------------
@@ -484,6 +488,19 @@ def check(ctx, rep):
             check_linear(rep, c2, 'allfeat')
     check_forwarders(rep, core)
     check_executor_loops(rep, core)
+    # R01.f: request / stream / notification effects are put on the effect channel exactly once (typestate of the command-API futures)
+    from rules.props import prims, c05, c07
+    rep.rule('R01.f', 'the effect of a command-API request, stream or notification is put on the effect channel exactly once: at the call '
+             '(notification) or at the first poll (ReadyToSend -> Sent), and the future keeps its receiver', floor=10)
+    prims.check_request_typestate(rep, 'R01.f', core)
+    # R01.g: no task with outstanding work is lost: a future crux provides never stays Pending without this poll's waker (else the
+    # eviction test discards the task and everything it would still have requested) — shared with C05 R05.c / C07 R07.d
+    rep.rule('R01.g', 'every future crux provides keeps the current poll\'s waker when it stays Pending (a task that loses it is evicted and its later effects are lost)', floor=5)
+    c05.check_pending_wakers(rep, 'R01.g', core, ctx.crate('default', 'crux_time'))
+    # R01.h: outputs already produced are not thrown away when a hosted command ends (shared with C07 R07.a / R07.e)
+    rep.rule('R01.h', 'a command reports done / ends its stream only when its effect and event queues are empty', floor=3)
+    c07.check_is_done(rep, 'R01.h', core)
+    c07.check_stream_end(rep, 'R01.h', core)
     controls(ctx, rep)
     rep.assume('duplication of an effect or event is impossible: the runtime is generic over Effect/Event with no Clone bound (rustc)')
     rep.assume('crossbeam-channel unbounded channels deliver every sent message exactly once, FIFO')
